@@ -1,5 +1,6 @@
 import MsqModel.Scan
 import MsqModel.Gen.LexShipped
+import MsqProofs.Lemmas.MyBatisSim
 /-!
 # C20 — the extension surface behaves as documented for plug-ins
 
@@ -190,5 +191,112 @@ theorem redirect_is_line_comment :
 theorem unterminated_placeholder_rejected :
     (match Gen.mybatis.lex "a #{x".toList with | .error .lexical => true | _ => false) = true := by
   decide +kernel
+
+/-! ## (c) the MyBatis lexer is a conservative extension of the base lexer: simulation for ALL texts
+
+`Lex.Sim.lex_conservative_sharp` (MsqProofs/Lemmas/MyBatisSim.lean) is generic in the machine; here its side conditions are
+discharged by `decide` on the REGENERATED intercept list, table and operation code, so a change of the plug-in or of the
+table breaks the obligation named after the fact it states. -/
+open Lex.Sim
+
+theorem mem_allCls (c : Gen.Cls) : c ∈ Gen.allCls := by cases c <;> decide
+
+/-- obligation (table + code): no cell of the shipped table (explicit, default, END) and no `setStatus` in the code of any
+operation class names CUSTOM_1 or CUSTOM_2 — started outside the custom states the base `handle` stays outside -/
+theorem base_closed_under_noncustom : Gen.cfgS.avoids custom Gen.allCls = true := by decide +kernel
+
+/-- obligation (driver constant): the END marker fed after the text is neither `#` nor `{` -/
+theorem end_marker_not_hash_brace : (Gen.mybatis.endMarker != ['#'] && Gen.mybatis.endMarker != ['{']) = true := by decide
+
+/-- obligation (plug-in): for `#` in WAIT the plug-in runs, without redirect, an operation whose normal form is
+`add_cache_to` (advance, keep the window, go to the own status) with own status CUSTOM_1 -/
+theorem hash_in_wait_plugin :
+    (match Gen.mybatis.intercepts.find? (fun i => i.fires Gen.mybatis.endMarker .WAIT (.ch '#')) with
+     | some i => i.redirect.isNone && i.op.status == .CUSTOM_1 && summarize (Gen.mybatis.cfg.code i.op.cls) == some addCacheSummary
+     | none => false) = true := by decide
+
+/-- obligation (table): the base cell (WAIT, `#`) is the same normal form `add_cache_to`, with own status IN_EXPLAIN_1 -/
+theorem hash_in_wait_base :
+    (match Gen.mybatis.cfg.lookup .WAIT (.ch '#') with
+     | some o => o.status == .IN_EXPLAIN_1 && summarize (Gen.mybatis.cfg.code o.cls) == some addCacheSummary
+     | none => false) = true := by decide +kernel
+
+/-- obligation (plug-in): in CUSTOM_1 the intercepts before the catch-all test for `{`, and the catch-all only re-labels
+the state as IN_EXPLAIN_1 and calls the base `handle` (sharpens `redirect_is_line_comment`: it is the one that fires) -/
+theorem after_hash_brace_or_redirect : redirectsAfter .CUSTOM_1 .IN_EXPLAIN_1 ['{'] Gen.mybatis.intercepts = true := by decide
+
+/-- obligation (pre-pass): every replacement text of `preproc_sql` is non-empty and free of `#` and `{` -/
+theorem pre_pass_clean : Gen.cfgS.preChain.all (fun pr => cleanRep pr.2) = true := by decide
+
+/-- all side conditions of the simulation hold of the shipped plug-in -/
+theorem mybatis_consExt : ConsExt Gen.mybatis Gen.allCls where
+  cls_all := mem_allCls
+  base_closed := base_closed_under_noncustom
+  states := intercepts_states
+  marker := end_marker_not_hash_brace
+  opener := hash_in_wait_plugin
+  base_cell := hash_in_wait_base
+  after := after_hash_brace_or_redirect
+
+theorem base_lex (text : List Char) : Gen.base.lex text = Lex.lex Gen.cfgS text :=
+  lex_no_intercepts Gen.base rfl text
+
+/-- the RAW text nowhere contains `#` directly followed by `{` -/
+def NoPlaceholderOpener (text : List Char) : Prop := ¬ (['#', '{'] <:+: text)
+
+/-- decided by one scan (`hasOpener`), so `decide` works on concrete texts -/
+instance (text : List Char) : Decidable (NoPlaceholderOpener text) :=
+  decidable_of_iff (hasOpener text = false) (by rw [NoPlaceholderOpener, ← hasOpener_iff]; simp)
+
+/-- the pre-pass (`preproc_sql`) cannot create `#{` -/
+theorem pre_keeps_no_opener (text : List Char) (h : NoPlaceholderOpener text) : ¬ (['#', '{'] <:+: Gen.cfgS.pre text) :=
+  (noOpener_iff _).mp (preWith_noOpener _ text pre_pass_clean ((noOpener_iff text).mpr h))
+
+/-- **conservative extension, pre-processed form** (weakest plain hypothesis): no `#{` in `preproc_sql(text)` -/
+theorem conservative_extension_pre (text : List Char) (h : ¬ (['#', '{'] <:+: Gen.cfgS.pre text)) :
+    Gen.mybatis.lex text = Gen.base.lex text := by
+  rw [base_lex]; exact lex_conservative mybatis_consExt text h
+
+/-- **conservative extension**: for EVERY text without `#{` — any length, any characters, well-formed SQL or not — the
+MyBatis lexer returns exactly what the base lexer returns: the same token tree, or the same error -/
+theorem conservative_extension (text : List Char) (h : NoPlaceholderOpener text) :
+    Gen.mybatis.lex text = Gen.base.lex text :=
+  conservative_extension_pre text (pre_keeps_no_opener text h)
+
+/-- every `#{` of the pre-processed text is one whose `#` the BASE lexer does not consume in state WAIT (it lies in a
+string literal, a quoted name, a comment, …) -/
+def PlaceholderOpenersHarmless (text : List Char) : Prop := Harmless Gen.cfgS (Gen.cfgS.pre text)
+
+/-- **conservative extension, sharp form**: only a `#` consumed in WAIT and directly followed by `{` makes a difference -/
+theorem conservative_extension_sharp (text : List Char) (h : PlaceholderOpenersHarmless text) :
+    Gen.mybatis.lex text = Gen.base.lex text := by
+  rw [base_lex]; exact lex_conservative_sharp mybatis_consExt text h
+
+/-- the plain hypothesis is a special case of the sharp one -/
+theorem harmless_of_no_opener (text : List Char) (h : NoPlaceholderOpener text) : PlaceholderOpenersHarmless text :=
+  fun p q _ ht _ => absurd ⟨p, q, by simp [ht]⟩ (pre_keeps_no_opener text h)
+
+/-! ### non-vacuity -/
+
+/-- the hypothesis holds for texts with `#` comments … -/
+example : NoPlaceholderOpener "a # c\nb".toList := by decide +kernel
+/-- … for which both lexers do produce tokens (the comment is dropped under the shipped options) -/
+example : lexesTo (Gen.mybatis.lex "a # c\nb".toList) [.single ['a'] 2, .single ['b'] 2] = true := by decide +kernel
+example : Gen.mybatis.lex "a # c\nb".toList = Gen.base.lex "a # c\nb".toList := conservative_extension _ (by decide +kernel)
+
+/-- the hypothesis is needed: with a placeholder the two lexers differ (one marked name vs. a dropped line comment) -/
+theorem differs_on_placeholder :
+    lexesTo (Gen.mybatis.lex "a = #{x}".toList) [.single ['a'] 2, .single ['='] 0, .single "#{x}".toList (Gen.mark_NAME ||| Gen.mark_CUSTOM_1)] = true
+    ∧ lexesTo (Gen.base.lex "a = #{x}".toList) [.single ['a'] 2, .single ['='] 0] = true
+    ∧ ¬ NoPlaceholderOpener "a = #{x}".toList ∧ ¬ PlaceholderOpenersHarmless "a = #{x}".toList := by
+  refine ⟨by decide +kernel, by decide +kernel, by decide +kernel, fun h => ?_⟩
+  have h1 := conservative_extension_sharp _ h
+  have h2 : lexesTo (Gen.mybatis.lex "a = #{x}".toList) [.single ['a'] 2, .single ['='] 0] = false := by decide +kernel
+  have h3 : lexesTo (Gen.base.lex "a = #{x}".toList) [.single ['a'] 2, .single ['='] 0] = true := by decide +kernel
+  rw [h1, h3] at h2; exact absurd h2 (by decide)
+
+/-- the sharp hypothesis holds, and the plain one fails, for `#{` inside a string literal and behind `--` -/
+example : PlaceholderOpenersHarmless "a = '#{x}' -- #{y}".toList ∧ ¬ NoPlaceholderOpener "a = '#{x}' -- #{y}".toList :=
+  ⟨harmless_of_harmlessB _ _ (by decide +kernel), by decide +kernel⟩
 
 end C20
